@@ -2,7 +2,8 @@
    (property C08, "append preserves history").  Definitions only; proofs in AppendProofs.v.
 
    Code modelled (py7zr/py7zr.py, py7zr/archiveinfo.py), line by line:
-     SevenZipFile.__init__ mode "a":  _real_get_contents (the generated name for entries without
+     SevenZipFile.__init__ mode "a":  _real_get_contents (the SubstreamsInfo object installed when the header has
+                                      none: Assign.install_sub; the generated name for entries without
                                       one: `open_names`), _prepare_append (`append_position`)
      write/_writef/_register_and_archive:  Header.initialize (`initialize`), files_info.files.append,
                                       Worker.archive -> Worker._after_write (`add_member`, `after_write`)
@@ -15,6 +16,7 @@
    Tie to the code: tools/harness/c08model.py runs `append_session` / `append_position` (through the
    dispatcher below) and the real session on the same header graphs and compares the graphs. *)
 From P7 Require Import Prelude PyPrims Number Header HeaderCodec.
+From P7 Require Assign.
 Open Scope Z_scope.
 
 (* a member added by the session: its file entry and, for a member with a data stream, (size, crc32) *)
@@ -34,8 +36,11 @@ Definition open_names (dflt : list Z) (h : header) : header :=
 (* SevenZipFile.__init__, mode "a", on a file that starts with the 7z signature: the header is read;
    when that fails the exception is passed on (Bad7zFile is re-raised: an archive that cannot be
    read is never replaced by a new one) and nothing has been written *)
+(* _real_get_contents also installs SubstreamsInfo.default(folders) in a graph that was read without a
+   SubStreamsInfo (Assign.install_sub): the session and the header written at close work on that object *)
+Definition open_graph (dflt : list Z) (h : header) : header := open_names dflt (Assign.install_sub h).
 Definition open_for_append (lim : Z) (dflt : list Z) (hdr : bytes) : res header :=
-  do h <- parse_header lim hdr; Ok (open_names dflt h).
+  do h <- parse_header lim hdr; Ok (open_graph dflt h).
 
 (* PackInfo._read: packpositions = [sum(packsizes[:i]) for i in range(numstreams + 1)]; [-1] *)
 Definition pack_end (p : packinfo) : Z := sumZ (takeZ (p_numstreams p) (p_sizes p)).
@@ -196,7 +201,7 @@ Fixpoint append_sessions (reopen : header -> res header) (pw : bool) (h : header
 Definition reopen_via_bytes (lim : Z) (en : bool) (pos : Z) (dflt : list Z) (h : header) : res header :=
   do bs <- write_header en pos h;
   do h' <- parse_header lim bs;
-  Ok (open_names dflt h').
+  Ok (open_graph dflt h').
 
 (* ------------------------------------------------------------------ *)
 (* the hypotheses of the theorems (AppendProofs.v), computable          *)
